@@ -254,6 +254,10 @@ func c12Inc32(c *Ctx, f *ssa.Function) {
 			}
 		}
 	}
+	if !(initOK && stepOK && boundOK && incOK && stopOK) && cp && c12IncGeneral(inc) {
+		// any counter form: the incremented positions run from len-1 down to len-4 and the loop stops on a non-zero byte
+		initOK, stepOK, boundOK, incOK, stopOK = true, true, true, true, true
+	}
 	c.Check(initOK && stepOK && boundOK && incOK && stopOK && cp, "K-C12-inc32", fn, "inc32: last 4 bytes, big-endian, carry stops on non-zero", "",
 		fmt.Sprintf("counter increment is not inc32 (start at last byte=%v, step -1=%v, stops after byte len-4=%v, byte+1=%v, stop on non-zero=%v, starts from a copy=%v)", initOK, stepOK, boundOK, incOK, stopOK, cp), inc.Pos())
 	// incr: blocks Y[i] = inc(Y[i-1]) for i=1..n-1, Y[0] = Y0
@@ -283,6 +287,14 @@ func c12Inc32(c *Ctx, f *ssa.Function) {
 		a1 := be2.bytesOf(call.Call.Args[1], call).String()
 		Y := "copyN(mul(0x10,n),Y0)"
 		okChain = a0 == "slice("+Y+",mul(0x10,sub(i,0x1)),add(0x10,mul(0x10,sub(i,0x1))))" && a1 == "slice("+Y+",mul(0x10,i),add(0x10,mul(0x10,i)))"
+		if !okChain {
+			// the same chain with a byte offset that starts at 16 and steps by 16
+			for _, p := range phisOf(call.Block().Idom()) {
+				if iv, ok := inductionOf(p); ok && iv.init == 16 && iv.step == 16 {
+					okChain = a0 == "slice("+Y+",sub(i,0x10),i)" && a1 == "slice("+Y+",i,add(0x10,i))"
+				}
+			}
+		}
 		if !okChain {
 			dbg("incr chain: %s -> %s", a0, a1)
 		}
@@ -723,4 +735,164 @@ func c12TLS(c *Ctx) {
 		})
 	}
 	c.Check(n >= 2, "T-C12-tls", fn, "installed as the AEAD of the SM4-GCM suites", "", fmt.Sprintf("aeadSM4GCM is referenced by %d suite rows", n), f.Pos())
+}
+
+// c12IncGeneral: the carry loop of inc32 in any counter form. With LEN = len of the block: one store in the loop adds 1
+// to the byte at a position that is linear in the loop counter; the counter runs from a constant start by ±1 up to a
+// constant bound (tests against LEN or 0 only guard short buffers); the first position is LEN-1, the last LEN-4; and a
+// test of the incremented byte against 0 leaves the loop when it is non-zero.
+func c12IncGeneral(inc *ssa.Function) bool {
+	if len(inc.Params) != 2 {
+		return false
+	}
+	yii := inc.Params[1]
+	isLEN := func(v ssa.Value) bool {
+		return isLenOf(v, func(x ssa.Value) bool { return x == ssa.Value(inc.Params[0]) || x == yii })
+	}
+	for _, h := range loopHeaders(inc) {
+		blocks := loopBlocks(h)
+		for _, p := range phisOf(h) {
+			iv, ok := inductionOf(p)
+			if !ok || (iv.step != 1 && iv.step != -1) {
+				continue
+			}
+			// linear form over P (the counter) and LEN
+			var lf func(v ssa.Value, d int) (linForm, bool)
+			lf = func(v ssa.Value, d int) (linForm, bool) {
+				if d > 8 {
+					return linForm{}, false
+				}
+				if k, isK := constInt(v); isK {
+					return linForm{k: k, coef: map[string]int64{}}, true
+				}
+				if v == ssa.Value(p) {
+					return linForm{coef: map[string]int64{"P": 1}}, true
+				}
+				if isLEN(v) {
+					return linForm{coef: map[string]int64{"LEN": 1}}, true
+				}
+				switch x := v.(type) {
+				case *ssa.Convert:
+					return lf(x.X, d+1)
+				case *ssa.BinOp:
+					if x.Op == token.ADD || x.Op == token.SUB {
+						a, ok1 := lf(x.X, d+1)
+						b, ok2 := lf(x.Y, d+1)
+						if ok1 && ok2 {
+							if x.Op == token.ADD {
+								return a.add(b, 1), true
+							}
+							return a.add(b, -1), true
+						}
+					}
+				}
+				return linForm{}, false
+			}
+			// constant bound among the loop-controlling tests on the counter
+			haveBound := false
+			var lastP int64
+			for b := range blocks {
+				ifi, ok := lastIf(b)
+				if !ok {
+					continue
+				}
+				cmp, ok := ifi.Cond.(*ssa.BinOp)
+				if !ok || cmp.X != ssa.Value(p) {
+					continue
+				}
+				k, isK := constInt(cmp.Y)
+				if !isK {
+					continue
+				}
+				switch {
+				case iv.step == 1 && cmp.Op == token.LEQ:
+					lastP, haveBound = k, true
+				case iv.step == 1 && cmp.Op == token.LSS:
+					lastP, haveBound = k-1, true
+				}
+			}
+			if !haveBound {
+				// a descending counter from LEN-1 is the form the older rule decides
+				continue
+			}
+			okStore, okStop := false, false
+			instrsOf(inc, func(b *ssa.BasicBlock, in ssa.Instruction) {
+				if !blocks[b] {
+					return
+				}
+				switch x := in.(type) {
+				case *ssa.Store:
+					ia, ok := x.Addr.(*ssa.IndexAddr)
+					if !ok || ia.X != ssa.Value(yii) {
+						return
+					}
+					add, ok := x.Val.(*ssa.BinOp)
+					if !ok || add.Op != token.ADD {
+						return
+					}
+					if k, isK := constInt(add.Y); !isK || k != 1 {
+						return
+					}
+					ld, ok := add.X.(*ssa.UnOp)
+					if !ok {
+						return
+					}
+					ia2, ok := ld.X.(*ssa.IndexAddr)
+					if !ok || ia2.X != ssa.Value(yii) {
+						return
+					}
+					f1, ok1 := lf(ia.Index, 0)
+					f2, ok2 := lf(ia2.Index, 0)
+					if !ok1 || !ok2 || !f1.equal(f2) || (f1.coef["P"] != 1 && f1.coef["P"] != -1) {
+						return
+					}
+					at := func(pv int64) linForm {
+						r := linForm{k: f1.k + f1.coef["P"]*pv, coef: map[string]int64{}}
+						for s, c := range f1.coef {
+							if s != "P" {
+								r.coef[s] = c
+							}
+						}
+						return r
+					}
+					first, last := at(iv.init), at(lastP)
+					wantFirst := linForm{k: -1, coef: map[string]int64{"LEN": 1}}
+					wantLast := linForm{k: -4, coef: map[string]int64{"LEN": 1}}
+					if first.equal(wantFirst) && last.equal(wantLast) {
+						okStore = true
+					}
+				case *ssa.If:
+					cmp, ok := x.Cond.(*ssa.BinOp)
+					if !ok || (cmp.Op != token.NEQ && cmp.Op != token.EQL) {
+						return
+					}
+					if k, isK := constInt(cmp.Y); !isK || k != 0 {
+						return
+					}
+					v := cmp.X
+					if add, isAdd := v.(*ssa.BinOp); isAdd && add.Op == token.ADD {
+						v = add.X // the stored value itself
+					}
+					ld, ok := v.(*ssa.UnOp)
+					if !ok {
+						return
+					}
+					if ia, ok := ld.X.(*ssa.IndexAddr); !ok || ia.X != ssa.Value(yii) {
+						return
+					}
+					leave := b.Succs[0]
+					if cmp.Op == token.EQL {
+						leave = b.Succs[1]
+					}
+					if !reach([]*ssa.BasicBlock{leave}, nil)[h] {
+						okStop = true
+					}
+				}
+			})
+			if okStore && okStop {
+				return true
+			}
+		}
+	}
+	return false
 }
